@@ -1,5 +1,7 @@
 (* C17 — proofs: see ProofsFs.v (file system), ProofsRot.v (size rotation),
    ProofsTrot.v (time rotation), ProofsFmt.v (truncation of over-long lines),
    ProofsLog.v (whole write functions = truncate + write), ProofsDir.v (working
-   directory: only the directory resolved at init is touched) *)
-From MV Require Export C17.Model C17.ProofsFs C17.ProofsRot C17.ProofsTrot C17.ProofsFmt C17.ProofsLog C17.ProofsDir.
+   directory: only the directory resolved at init is touched), ProofsCal.v (the
+   model's calendar is the proleptic Gregorian calendar; period keys), ProofsCount.v
+   (restarts that change backup_count) *)
+From MV Require Export C17.Model C17.ProofsFs C17.ProofsRot C17.ProofsTrot C17.ProofsFmt C17.ProofsLog C17.ProofsDir C17.ProofsCal C17.ProofsCount.
